@@ -183,6 +183,21 @@ CLAIMS.update({
         "DESIGN.md section 6, C18", TECH_KANI),
 })
 
+CLAIMS.update({
+    "C17": (
+        "Bounded solver verdict for the run structure around the sort - NOT for std's sort, NOT for the combining-class table, NOT for the decompositions: "
+        "with core::slice::sort::stable::sort replaced by an insertion sort by the same comparison (the documented contract of sort_by_key: a stable sort) and the "
+        "third-party canonical-combining-class table replaced by the Unicode classes of an 8-character alphabet (2 bases, marks of classes 230, 230, 220, 33, 27, 103), "
+        "scripts::preprocess_text on every 3-character text over that alphabet returns, for the script tags latn, syrc and an unknown tag, the input with each maximal "
+        "run of combining marks sorted stably by the crate's modified combining class, every character of class 'not reordered' in place and nothing moved across it "
+        "(compared with a loop-free reference); Myanmar text is returned unchanged. Thorough tier: for tag arab the result is a permutation in which bases keep their "
+        "position, marks stay inside their run and a shadda leads its run.",
+        "Thin claim. Stubs (listed in evidence): the std stable sort and the class table. Outside: texts longer than 3 characters, characters outside the alphabet, the "
+        "Thai/Lao SARA AM split and PHINTHU rule, Indic and Khmer vowel splits, Bengali ya-nukta, Kannada ra-halant-joiner, dotted-circle insertion (all Vec::insert on symbolic "
+        "conditions, not attempted), the exact AMTRA order for Arabic. A symbolic script tag is not decidable here (every script's preprocessing enters the formula), hence one harness per tag.",
+        "DESIGN.md section 6, C17", TECH_KANI),
+})
+
 NOT_APPLICABLE = {
     "C02": "Font::shape, gsub::apply, gpos::apply and every script engine sit behind LayoutCache (std HashMap) and Vec<RawGlyph> surgery (10-40 min, no answer); GlyphLayout::glyph_positions on a 2-glyph run with one symbolic attachment index ran out of 16 GB in every variant tried; what remains decidable (replace_missing_glyphs clamp; the matching primitives, decided under C04) is one of five anchored mechanisms and says nothing about totality of shaping (DESIGN.md section 9)",
     "C08": "cmap subset builder sits behind BTreeMap<Character,u16> (MappingsToKeep): pipeline 40 min and hooked kernel 25 min/10 GB gave no solver answer; a hook that bypasses the map would no longer execute the real code (DESIGN.md section 6, C08)",
